@@ -62,13 +62,15 @@ LEVEL_TEXT = ("Lean 4 theorems for all sizes and all operation histories: the he
 LEVEL_NOTE = ("Trusted: Lean kernel, statements in Props/C15.lean, C15SvdDecompose.lean, C15Kernels.lean, C15Obj.lean, "
               "harness/generator/comparator. The two operators whose faithful model still violates the property (Vec*TransMat: "
               "vec_transmat_violates, guards_vec_transmat_violates, and what it computes: C15_vec_transmat_as_coded; SymMat*SymMat: "
-              "symmat_product_violates) are proved to violate it on a witness and are the two KNOWN findings; the other former "
+              "symmat_product_violates, on the regenerated loop C15_symmat_product_violates_source) are proved to violate it on a witness and are the two KNOWN findings; the other former "
               "findings are FIXED in /repo and the models follow the current tree (TransMat(r,c) dimensions f2f37a8: "
               "transmat_sum_shape; TransMat*TransMat stride cb8c13f and TransVec*MatBase bound ef27491: regression examples; "
               "memcpy(nullptr,..,0) 87f5175: no_null_memcpy; SymMat of dimension 0 45f8c0a). Regenerated loops: the seven "
               "vector-valued kernels of C15_kernels_source_tie (round 9) and the nine of C15_matrix_kernels_source_tie (round 10: "
               "Mat*Mat pointer version, the three TransMat products, trans(TransMat), mul/add/sub/*=) and Mat*SymMat (round 12: "
-              "C15_mat_symmat_source_tie, packed-triangle walk; value C15_mat_symmat_value = A * Square(B)); SymMat*SymMat, free "
+              "C15_mat_symmat_source_tie, packed-triangle walk; value C15_mat_symmat_value = A * Square(B)) and SymMat*SymMat as coded "
+              "(round 13: C15_symmat_symmat_source_tie; C15_symmat_symmat_as_coded - cell (i,j), j <= i, is (AB)(i,j), so the result is "
+              "AB exactly when AB is symmetric; C15_symmat_product_violates_source - the known finding on the regenerated loop); free "
               "SymMat + - += -=, Mat(TransMat), Mat+-TransMat, SymMat::cholDec/invert, Mat::invert are hand models behind regenerated "
               "guards + correspondence; the accessor variants MatBase*Vec, TransVec*MatBase return what the pointer loops return on the "
               "view of a Mat / TransMat (C15_accessor_variants_value); sums and scalar multiples of the single classes "
@@ -93,7 +95,7 @@ TRUSTED = ["harness/c15_matvec.cpp: counting replacements of operator new[]/dele
            "a guard nested under a condition, a spurious throw, a class matched by NAME are not noticed)",
            "translators tools/gen/c15_members.py, c15_members2.py (data members of Mat / SymMat / Vec class chains, declared "
            "destructors, copies and moves, the initialisation of Mat::pentry -> Gen/MatMembers, Gen/SymVecMembers)",
-           "translator tools/gen/c15_kernels.py on the C front end tools/gen/cfun.py (seventeen functions statement by statement -> "
+           "translator tools/gen/c15_kernels.py on the C front end tools/gen/cfun.py (eighteen functions statement by statement -> "
            "Gen/MatVecKernels; any other statement form stops the run)"]
 MODELLED = ["IEEE rounding (theorems over ordered fields; Float instance compared with tolerance)",
             "indeterminate content of new Float[n] (model: a fixed placeholder; never observed before written)",
